@@ -455,6 +455,29 @@ theorem valid_declaration_accepted (ss : List Spec) (ids : List ID) (rest : List
   · simp [htd, acc, hok, hss, hne]
   · simp [htd, acc, hok, hss, hne]
 
+/-- **Translation units (6.9)**: every sequence of accepted external declarations (declarations, function definitions, stray `;`) is parsed
+back to exactly that sequence, to the end of the text - with the number of declarations as fuel (the C++ loops until the end-of-file token). -/
+theorem unit_parse_pp (rs : List R) (h : rs.all accU = true) : unit (rs.length + 1) (ppU rs) = some rs :=
+  Declaration.unit_pp rs _ h (Nat.lt_succ_self _)
+
+/-- … and whatever the unit loop answers is the printing of accepted declarations, one per unit of fuel -/
+theorem unit_parse_sound (f : Nat) (ts : List Tok) (rs : List R) (h : unit f ts = some rs) :
+    ts = ppU rs ∧ rs.all accU = true := ⟨(Declaration.unit_sound f ts rs h).1, (Declaration.unit_sound f ts rs h).2.1⟩
+
+/-- the fuel only bounds the loop: the number of tokens (+ 1) reproduces whatever any fuel yields -/
+theorem unit_fuel_free (f : Nat) (ts : List Tok) (rs : List R) (h : unit f ts = some rs) : unit (ts.length + 1) ts = some rs := by
+  obtain ⟨h1, h2, _⟩ := Declaration.unit_sound f ts rs h
+  have hlen : ∀ xs : List R, xs.length ≤ (ppU xs).length := by
+    intro xs
+    induction xs with
+    | nil => simp [ppU]
+    | cons r xs ih =>
+      have hp : 0 < (pp r).length := by cases r <;> simp [pp] <;> omega
+      simp only [ppU, List.length_cons, List.length_append]; omega
+  have hlen := hlen rs
+  rw [h1]
+  exact Declaration.unit_pp rs _ h2 (by omega)
+
 /-- 6.7.9p3 the other way round, as far as the parser goes: a plain function declarator with an initializer is refused -/
 theorem function_declarator_takes_no_initializer (n : String) (ps : Params) (e : Bool) (qs : List Qual) :
     initOK (.fn (.ident n) ps e) = false ∧ initOK (.paren (.fn (.paren (.ident n)) ps e)) = false ∧
